@@ -332,8 +332,36 @@ pub fn small_inputs<const D: usize>(id: &str, rng: &mut Rng, out: &mut Out) {
     out.end();
 }
 
+/// batch construction with `DedupPolicy::Epsilon` when coordinate / tolerance sits exactly on the
+/// edges of the i64 / f64-integer ranges (+-2^52, 2^53, 2^62, 2^63, 2^64): the hash-grid key, the
+/// quantised fallback and its neighbour enumeration must not overflow.  Outcome class only.
+pub fn extreme_dedup<const D: usize>(id: &str, rng: &mut Rng, out: &mut Out) {
+    use delaunay::core::delaunay_triangulation::{ConstructionOptions, DedupPolicy};
+    out.case(id, "adv", &format!("D={D} what=extreme_dedup"));
+    let base = gens::to_f(&gens::general_position(rng, D, D + 2, 6), 1.0, 0.0);
+    for tol in [1.0f64, 0.5, 1e-9] {
+        for k in [52i32, 53, 62, 63, 64] {
+            for sign in [1.0f64, -1.0] {
+                let mut pts: Vec<[f64; D]> = base.iter().map(|p| gens::arr::<D>(p)).collect();
+                let ax = rng.below(D as u64) as usize;
+                let mut far = [0.0f64; D];
+                far[ax] = sign * tol * 2f64.powi(k);
+                pts.insert(rng.below(pts.len() as u64 + 1) as usize, far);
+                let plain: Vec<Vertex<f64, (), D>> = Vertex::from_points(&pts.iter().map(|p| Point::new(*p)).collect::<Vec<_>>());
+                let o = ConstructionOptions::default().with_dedup_policy(DedupPolicy::Epsilon { tolerance: tol });
+                let (r, s) = timed(|| DelaunayTriangulation::<_, (), (), D>::new_with_options(&plain, o));
+                out.obs(&format!("extreme_dedup_tol{tol:e}_k{k}_{}", if sign > 0.0 { "pos" } else { "neg" }), &cls(&r, s));
+            }
+        }
+    }
+    out.end();
+}
+
 pub fn run(cfg: &Cfg, rng: &mut Rng, out: &mut Out) {
     let thorough = cfg.tier == "thorough";
+    extreme_dedup::<2>("xd2", rng, out);
+    extreme_dedup::<3>("xd3", rng, out);
+    if thorough { extreme_dedup::<4>("xd4", rng, out); extreme_dedup::<5>("xd5", rng, out); }
     for i in 0..(if thorough { 3 } else { 1 }) {
         small_inputs::<2>(&format!("sm2_{i}"), rng, out);
         small_inputs::<3>(&format!("sm3_{i}"), rng, out);
